@@ -99,6 +99,9 @@ type prog struct {
 	inputs [][]interface{} // initial contents of model buffer b (in creation order of `new`)
 	nbuf   int
 	vset   int
+	// text each (tensor, verb) pair was formatted to the first time (step `fmt`): formatting the same tensor again -
+	// in another goroutine, under any interleaving - must give the same text
+	fmtSeen map[string]string
 }
 
 // guard runs f, converting a panic into ("panic").
@@ -532,6 +535,30 @@ func (p *prog) stepInner(idx int, toks []string) *rec {
 			}
 			return v.(*tensor.Dense), nil
 		})
+	case "fmt":
+		// fmt $v <verb>: formatting is a read-only use of the tensor (C18); its text must not depend on what else
+		// is being formatted at the same time
+		t, _ := p.get(toks[1])
+		if t == nil || len(toks) != 3 {
+			return simple("skip")
+		}
+		var txt string
+		res := guard(func() error { txt = fmt.Sprintf(toks[2], t); return nil })
+		if res != "ok" {
+			return simple(res)
+		}
+		key := fmt.Sprintf("%p|%s", t, toks[2])
+		if p.fmtSeen == nil {
+			p.fmtSeen = map[string]string{}
+		}
+		if prev, ok := p.fmtSeen[key]; ok && prev != txt {
+			r := simple("fmtdiff")
+			r.fields["got"] = strconv.Quote(txt)
+			r.fields["want"] = strconv.Quote(prev)
+			return r
+		}
+		p.fmtSeen[key] = txt
+		return simple("ok")
 	case "roll":
 		t, dt := p.get(toks[1])
 		if t == nil || len(toks) != 5 {
